@@ -2,7 +2,7 @@
    Obligations of the property; proofs live in Proofs/. *)
 From Coq Require Import List NArith ZArith QArith Qcanon Bool.
 From ACB Require Import Base.Outcome Base.QcExtra Base.Arith Model.Tx Model.Ledger Model.Sfl
-     Model.DeltaList Spec.AvgCost Proofs.C01Refine.
+     Model.DeltaList Spec.AvgCost Proofs.C01Refine Proofs.FitProps Base.Fit.
 Import ListNotations.
 
 (* Full strength, exact half of the property: for EVERY history (any length,
@@ -31,6 +31,42 @@ Proof. exact C01Refine.sale_cost_identity. Qed.
 Check C01_sale_cost_identity : forall b s a : Qc,
   b <> 0%Qc -> ((b - s) * (a / b) = a - a * s / b)%Qc.
 Print Assumptions C01_sale_cost_identity.
+
+(* Rounding half of the property, per operation.  The code's arithmetic
+   (rust_decimal, modelled bit-exactly by [fit], re-validated against the real
+   crate on every run) returns, for every + - * /, a decimal with s' <= 28
+   places whose mantissa fits 96 bits and which lies within half a unit of
+   its last place of the exact result (so within 5e-29 for results below 7.9,
+   within 5e-17 for results below 7.9e12); it never changes the weak sign; and
+   it is exact whenever the exact result is itself such a decimal.  The
+   accumulation of these errors over a history (C01_dec_close of DESIGN.md) is
+   NOT proved: it is measured on every run (evidence: max_abs_deviation). *)
+Theorem C01_rounding_error_per_operation : forall q r : Qc,
+  fit q = Some r ->
+  exists s', (s' <= 28)%nat /\
+    (Qabs.Qabs (this r - this q) <= 1 # (2 * p10 s'))%Q /\
+    exists m, (Z.abs m <= max_mant)%Z /\ (this r == m # p10 s')%Q.
+Proof. exact FitProps.fit_error. Qed.
+Check C01_rounding_error_per_operation : forall q r : Qc,
+  fit q = Some r ->
+  exists s', (s' <= 28)%nat /\
+    (Qabs.Qabs (this r - this q) <= 1 # (2 * p10 s'))%Q /\
+    exists m, (Z.abs m <= max_mant)%Z /\ (this r == m # p10 s')%Q.
+Print Assumptions C01_rounding_error_per_operation.
+
+Theorem C01_rounding_exact_on_decimals : forall (q : Qc) m s,
+  (s <= 28)%nat -> (Z.abs m <= max_mant)%Z -> (this q == m # p10 s)%Q -> fit q = Some q.
+Proof. exact FitProps.fit_exact. Qed.
+Check C01_rounding_exact_on_decimals : forall (q : Qc) m s,
+  (s <= 28)%nat -> (Z.abs m <= max_mant)%Z -> (this q == m # p10 s)%Q -> fit q = Some q.
+Print Assumptions C01_rounding_exact_on_decimals.
+
+Theorem C01_rounding_keeps_sign : forall q r : Qc,
+  fit q = Some r -> ((0 <= q)%Qc -> (0 <= r)%Qc) /\ ((q <= 0)%Qc -> (r <= 0)%Qc).
+Proof. exact FitProps.fit_sign. Qed.
+Check C01_rounding_keeps_sign : forall q r : Qc,
+  fit q = Some r -> ((0 <= q)%Qc -> (0 <= r)%Qc) /\ ((q <= 0)%Qc -> (r <= 0)%Qc).
+Print Assumptions C01_rounding_keeps_sign.
 
 (* Non-vacuity: a 8-row history with three affiliates (one registered), a
    USD purchase, a split, a return of capital after the split and a fully
